@@ -171,8 +171,33 @@ func (m *Machine) yield() {
 	m.switchFrom(g)
 }
 
+// pickNextExplored: when the running goroutine blocks or yields and several others can run,
+// which one continues is a scheduling decision too. With PreemptAtSync it is explored within
+// the same budget as the lock-point preemptions (choosing another than the round-robin
+// successor counts as one switch).
+func (m *Machine) pickNextExplored(from *gor) *gor {
+	def := m.pickNext(from)
+	if def == nil || !m.cfg.PreemptAtSync || m.ps == nil || m.preemptions >= m.cfg.MaxPreemptions {
+		return def
+	}
+	cands := []*gor{def}
+	for _, o := range m.gors {
+		if o != def && o != from && !o.done && (o.runnable || (o.cond != nil && o.cond())) {
+			cands = append(cands, o)
+		}
+	}
+	if len(cands) < 2 {
+		return def
+	}
+	k := m.decideFree("sched-pick", len(cands))
+	if k != 0 {
+		m.preemptions++
+	}
+	return cands[k]
+}
+
 func (m *Machine) switchFrom(g *gor) {
-	next := m.pickNext(g)
+	next := m.pickNextExplored(g)
 	if next == nil {
 		if g.runnable || (g.cond != nil && g.cond()) {
 			g.runnable, g.cond = true, nil
